@@ -532,3 +532,80 @@ func VH03b_requeue() {
 	verif.Reach("requeue-checked")
 	sock.Close()
 }
+
+// VH03c_queued: a request that is still queued inside the socket (the only
+// connection is busy with another context's request) has not been seen by any
+// peer, so no frame can be an answer to it: a frame with ANY 32-bit id (solver
+// variable, so also the id the queued request carries) arriving in that window
+// is never returned by Recv and does not make the request vanish; once the
+// connection is ready the request is transmitted and its genuine reply is
+// delivered.
+func VH03c_queued() {
+	lab := "C03/queued"
+	sock := vp.New("req")
+	sock.SetOption(mangos.OptionRetryTime, time.Duration(0))
+	side := vt.Listen(sock, "a")
+	p0 := side.Peer("p0")
+	pipes := []*vt.Pipe{p0}
+	c1, _ := sock.OpenContext()
+	c2, _ := sock.OpenContext()
+	be := verif.Choice("best-effort", 2) == 1
+	if be {
+		verif.Assert(c2.SetOption(mangos.OptionBestEffort, true) == nil, lab+"/set-best-effort")
+	}
+	// the connection is busy: A is handed to it and stalls there
+	p0.SendMode = vt.SendBlock
+	verif.Assert(c1.Send([]byte{'A'}) == nil, lab+"/send-A")
+	verif.Quiesce()
+	var errB error
+	gB := verif.Go("send-B", func() { errB = c2.Send([]byte{'B'}) })
+	verif.Quiesce()
+	var m *mangos.Message
+	var rerr error
+	var rg *verif.G
+	if be {
+		verif.Assert(gB.Done() && errB == nil, lab+"/best-effort-send-blocked")
+		rg = verif.Go("recv", func() { m, rerr = c2.RecvMsg() })
+		verif.Quiesce()
+	} else {
+		verif.Assert(!gB.Done(), lab+"/blocking-send-returned-although-nothing-could-take-the-request")
+	}
+	_, seen := findID(pipes, 'B')
+	verif.Assert(!seen, lab+"/B-on-the-wire-although-the-connection-is-busy")
+	// a frame with an arbitrary id arrives while B is still queued
+	x := verif.Uint32("frame-id")
+	p0.Deliver([]byte{byte(x >> 24), byte(x >> 16), byte(x >> 8), byte(x), 'x'})
+	verif.Quiesce()
+	if be {
+		verif.Assert(!rg.Done(), lab+"/recv-returned-a-frame-that-arrived-before-the-request-was-transmitted")
+	} else {
+		verif.Assert(!gB.Done(), lab+"/blocking-send-completed-by-an-incoming-frame")
+	}
+	// the connection becomes ready
+	p0.SendMode = vt.SendOK
+	p0.Release()
+	verif.Quiesce()
+	verif.Assert(gB.Done() && errB == nil, lab+"/send-B-not-completed-with-ready-peer")
+	idB, okB := findID(pipes, 'B')
+	verif.Assert(okB, lab+"/queued-request-never-transmitted")
+	if !okB {
+		return
+	}
+	if !be {
+		rg = verif.Go("recv", func() { m, rerr = c2.RecvMsg() })
+		verif.Quiesce()
+	}
+	if rg.Done() {
+		verif.Assert(rerr != nil || (len(m.Body) == 1 && m.Body[0] == 'b'), lab+"/recv-returned-a-frame-that-arrived-before-the-request-was-transmitted")
+		verif.Assert(false, lab+"/recv-returned-before-the-reply")
+		return
+	}
+	p0.Deliver([]byte{byte(idB >> 24), byte(idB >> 16), byte(idB >> 8), byte(idB), 'b'})
+	verif.Quiesce()
+	verif.Assert(rg.Done(), lab+"/reply-to-current-request-not-delivered")
+	if rg.Done() {
+		verif.Assert(rerr == nil && len(m.Body) == 1 && m.Body[0] == 'b', lab+"/wrong-reply-delivered")
+	}
+	verif.Reach("queued-checked")
+	sock.Close()
+}
